@@ -71,7 +71,7 @@ def build_driver(scratch, race=False):
 def run_tlc(specdir, module, cfg, workers=1, heap="3g", env=None, timeout=3600, extra=()):
     """Run TLC; returns (returncode, stdout)."""
     md = tempfile.mkdtemp(prefix="tlcmeta.", dir=specdir)
-    cmd = ["java", "-Xmx" + heap, "-Xss256m", "-XX:+UseParallelGC", "-XX:ParallelGCThreads=2",
+    cmd = ["java", "-Xmx" + heap, "-Xss256m", "-XX:+UseParallelGC", "-XX:ParallelGCThreads=2", "-Djava.io.tmpdir=" + md,
            "-cp", JAVA_CP, "tlc2.TLC", "-workers", str(workers), "-metadir", md,
            "-config", cfg, *extra, module]
     e = dict(os.environ)
@@ -125,7 +125,7 @@ def run_calc(specdir, drv, tdir, seed, num, workers=4, timeout=900):
     """Run kind (C): TLC simulates the full-size Calc machine; its behaviours are replayed into the real library.
     Returns (trace path, number of distinct behaviours)."""
     md = tempfile.mkdtemp(prefix="tlcmeta.", dir=specdir)
-    cmd = ["java", "-Xmx4g", "-Xss256m", "-XX:+UseParallelGC", "-XX:ParallelGCThreads=2", "-cp", JAVA_CP, "tlc2.TLC",
+    cmd = ["java", "-Xmx4g", "-Xss256m", "-XX:+UseParallelGC", "-XX:ParallelGCThreads=2", "-Djava.io.tmpdir=" + md, "-cp", JAVA_CP, "tlc2.TLC",
            "-workers", str(workers), "-metadir", md, "-config", "Calc.cfg", "-simulate", "num=%d" % num, "-depth", "40",
            "-seed", str(seed), "Calc.tla"]
     try:
@@ -213,8 +213,10 @@ def check_property(pid, tier, seed):
         genv = dict(GOENV)
         if prop.get("race"):
             genv["GORACE"] = "halt_on_error=0 exitcode=66"
+        vec = tcfg.get("vec", (0, 0))
         p = subprocess.run([drv, "gen", "-prop", pid, "-tier", tier, "-seed", str(seed), "-out", tdir,
-                            "-shards", str(shards), "-steps", str(tcfg["steps"])],
+                            "-shards", str(shards), "-steps", str(tcfg["steps"]),
+                            "-testdata", os.path.join(REPO, "testdata"), "-vshards", str(vec[0]), "-vsteps", str(vec[1])],
                            capture_output=True, text=True, env=genv, timeout=tcfg.get("gen_timeout", 1800))
         race_report = None
         if prop.get("race") and (p.returncode == 66 or "WARNING: DATA RACE" in p.stderr):
@@ -240,6 +242,8 @@ def check_property(pid, tier, seed):
         shard_files = sorted(os.path.join(tdir, f) for f in os.listdir(tdir) if f.endswith(".ndjson"))
 
         models = tcfg.get("models", [])
+        if os.environ.get("VERIF_SKIP_MODELS"):      # development aid (seeded-change evaluation): the small-format models
+            models = []                               # do not depend on the code under test
         model_workers = tcfg.get("model_workers", 4)
         results, mres = [], []
         nproc = max(1, NCPU - (model_workers if models else 0))
@@ -272,9 +276,12 @@ def check_property(pid, tier, seed):
         steps = 0
         samples = []
         per_op = {}
+        vec_steps = 0
         for path, res in sorted(results):
             events = [json.loads(x) for x in open(path)]
             steps += res["consumed"]
+            if os.path.basename(path).startswith("shard_v"):
+                vec_steps += res["consumed"]
             vmap = {ln: v for (ln, op, v) in res["verdicts"]}
             for idx, ev in enumerate(events):
                 v = vmap.get(idx + 1, "ok")
@@ -359,6 +366,7 @@ def check_property(pid, tier, seed):
                 "small_format_models": [{k: m[k] for k in ("module", "cfg", "states", "transitions", "wall_s")} for m in mres],
                 "trace_steps": steps, "steps_per_op": per_op, "undecided_steps": undecided,
                 "known_finding_steps": len(known),
+                "steps_from_repository_test_vectors": vec_steps,
                 "negative_controls": negs,
                 "race_detector": ("on, no report" if prop.get("race") and not race_report else ("REPORTED" if race_report else "off")),
             },
